@@ -71,6 +71,8 @@ type Job struct {
 	Input []byte    `json:"input"`
 	Opts  CaseOpts  `json:"opts"`
 	Plan  *vrt.Plan `json:"plan,omitempty"`
+	// ViaReader: the job calls ParseReader instead of Parse.
+	ViaReader bool `json:"via_reader,omitempty"`
 }
 
 // Case is one generated test case (everything but the grammar).
